@@ -1102,6 +1102,7 @@ func runTrieHistory(c *Ctx, ops []string, probes []string, kind string) {
 func genC15(c *Ctx) {
 	trieFullFanout(c)
 	trieSparse(c)
+	trieRound7(c)
 	trieExtras(c)
 	// exhaustive histories over {a,b}, strings <= 2 (thorough 3), depth <= 3 (thorough 4)
 	var strs []string
@@ -1177,6 +1178,7 @@ func genC15(c *Ctx) {
 
 func genC16(c *Ctx) {
 	regionsRound6(c)
+	regionsRound7(c)
 	regionsRound4(c)
 	run := func(starts, ends []int, queries []int, kind string) {
 		var idx *regions.Index
@@ -1349,6 +1351,7 @@ func u64s(v []uint64) string {
 }
 
 func genC17(c *Ctx) {
+	mashRound7(c)
 	mashRound6(c)
 	mashRound4(c)
 	mashExtras(c)
